@@ -50,6 +50,29 @@ func (timeoutErr) Error() string   { return "scripted: i/o timeout" }
 func (timeoutErr) Timeout() bool   { return true }
 func (timeoutErr) Temporary() bool { return true }
 
+// classErr is the error a connection that has failed for good returns on every further call, with what
+// it says about itself (a net.Error): "tmo" = Timeout() but not Temporary() (quic-go's IdleTimeoutError:
+// the peer vanished), "tmp" = Temporary() but not Timeout(). Neither is the expiry of a read deadline.
+type classErr struct{ timeout, temporary bool }
+
+func (e classErr) Error() string {
+	return fmt.Sprintf("scripted: connection failed for good (Timeout()=%v Temporary()=%v)", e.timeout, e.temporary)
+}
+func (e classErr) Timeout() bool   { return e.timeout }
+func (e classErr) Temporary() bool { return e.temporary }
+
+func errOfClass(x string) error {
+	switch x {
+	case "tmo":
+		return classErr{timeout: true}
+	case "tmp":
+		return classErr{temporary: true}
+	}
+	return errReset // says nothing about itself
+}
+
+const pollEvery = 2 * time.Millisecond // read deadline of a polling transport (glitch "tp")
+
 // pat is the counter payload of a direction: byte i of the stream an end writes.
 func pat(tag byte, i int64) byte { return byte((i*7 + (i>>8)*13 + (i>>16)*29 + int64(tag)) % 251) }
 
@@ -163,8 +186,10 @@ type fakeConn struct {
 	closed   bool     // Close() was called on the server side (the bridge's doing): the end observes closure
 	hs       bool     // packet phase of a tunnel connection (Handshake / TunnelOpen): no gates, replies go to hsOut
 	hsOut    []byte
-	rWait    int  // Read calls currently parked on this connection
-	rSeen    bool // the bridge has called Read on this connection at least once
+	rWait    int   // Read calls currently parked on this connection
+	rSeen    bool  // the bridge has called Read on this connection at least once
+	failErr  error // what every call returns once the connection has failed (nil: errReset)
+	dead     int   // calls (Read / Write) the bridge has made on this connection after it had failed
 	closeT   time.Time
 }
 
@@ -184,6 +209,22 @@ func (c *fakeConn) RemoteAddr() net.Addr {
 func (c *fakeConn) SetDeadline(time.Time) error      { return nil }
 func (c *fakeConn) SetReadDeadline(time.Time) error  { return nil }
 func (c *fakeConn) SetWriteDeadline(time.Time) error { return nil }
+
+// failure is the error of a call on a connection that has failed; the caller holds w.mu. A caller that
+// keeps calling a dead connection (a busy loop in the code under test) is slowed down so that it does
+// not eat the machine while the watchdog runs.
+func (c *fakeConn) failure() error {
+	c.dead++
+	if c.dead > 200 {
+		c.w.mu.Unlock()
+		time.Sleep(time.Millisecond)
+		c.w.mu.Lock()
+	}
+	if c.failErr != nil {
+		return c.failErr
+	}
+	return errReset
+}
 
 func (c *fakeConn) Read(p []byte) (int, error) {
 	if c == nil {
@@ -214,7 +255,7 @@ func (c *fakeConn) Read(p []byte) (int, error) {
 				return 0, timeoutErr{}
 			case c.failed && !(c.withData && len(c.in) > 0 && len(p) > 0):
 				take()
-				return 0, errReset
+				return 0, c.failure()
 			case len(c.in) > 0 && len(p) > 0:
 				take()
 				n := copy(p, c.in[0])
@@ -228,7 +269,7 @@ func (c *fakeConn) Read(p []byte) (int, error) {
 				switch {
 				case c.failed:
 					c.in = nil
-					return n, errReset
+					return n, c.failure()
 				case c.inEOF && c.withData && len(c.in) == 0:
 					return n, io.EOF
 				case c == e.cur() && e.glitch == "tn":
@@ -240,6 +281,19 @@ func (c *fakeConn) Read(p []byte) (int, error) {
 				take()
 				return 0, io.EOF
 			}
+		}
+		if e.glitch == "tp" && c == e.cur() && !e.gated && !c.hs {
+			// a polling transport: the read deadline fires, (0, temporary timeout) - again and again while
+			// nothing comes (not counted as progress: a drain must still be able to give up)
+			c.rWait++
+			w.mu.Unlock()
+			time.Sleep(pollEvery)
+			w.mu.Lock()
+			c.rWait--
+			if !c.closed && !c.failed && !c.inEOF && len(c.in) == 0 {
+				return 0, timeoutErr{}
+			}
+			continue
 		}
 		c.rWait++
 		w.cond.Wait()
@@ -280,7 +334,10 @@ func (c *fakeConn) Write(p []byte) (int, error) {
 	if c.closed {
 		return 0, errClosed
 	}
-	if c.failed || c.inEOF {
+	if c.failed {
+		return 0, c.failure()
+	}
+	if c.inEOF {
 		return 0, errPipe
 	}
 	if len(p) == 0 {
@@ -410,7 +467,8 @@ type step struct {
 	C string `json:"c,omitempty"`
 	D string `json:"d,omitempty"`
 	W string `json:"w,omitempty"` // close / error: "data" = the last bytes come together with EOF / the error
-	K string `json:"k,omitempty"` // glitch: "t0" | "tn"
+	K string `json:"k,omitempty"` // glitch: "t0" | "tn" | "tp" (every idle Read polls: persistent); attach: how
+	X string `json:"x,omitempty"` // error: what the permanent error says about itself: "" (nothing) | "tmo" | "tmp"
 }
 
 type beh struct {
@@ -671,7 +729,7 @@ func (r *run) checkSpont() bool {
 	return true
 }
 
-func (r *run) closeEnd(e, kind string, withData bool) {
+func (r *run) closeEnd(e, kind string, withData bool, class ...string) {
 	w := r.w
 	if e == "T" {
 		r.targetConn()
@@ -682,6 +740,10 @@ func (r *run) closeEnd(e, kind string, withData bool) {
 	w.markEnded(e, kind)
 	if withData {
 		w.ev[len(w.ev)-1]["w"] = "data"
+	}
+	if kind == "error" && len(class) > 0 && class[0] != "" && class[0] != "plain" {
+		w.ev[len(w.ev)-1]["x"] = class[0]
+		c.failErr = errOfClass(class[0])
 	}
 	c.withData = withData
 	if kind == "close" {
@@ -924,7 +986,7 @@ func executeOnce(env *fw.Env, b *beh) *fw.Trace {
 			if b.Mode == "free" && b.Lim == "slow" {
 				time.Sleep(paceIn) // let the copier get into the pacing of what it has read
 			}
-			r.closeEnd(st.E, st.A, st.W == "data")
+			r.closeEnd(st.E, st.A, st.W == "data", st.X)
 		case "arm":
 			w.mu.Lock()
 			w.ends[st.E].armed = true
@@ -1097,6 +1159,14 @@ func executeOnce(env *fw.Env, b *beh) *fw.Trace {
 	}
 	wait(func() bool { return r.registered() == 0 })
 	w.logL(fw.Event{"ev": "Forgot", "n": r.registered()})
+	w.mu.Lock()
+	for _, e := range []string{"S", "T"} {
+		if en := w.ends[e]; len(en.conns) > 0 && en.cur().failed && !w.seal {
+			// how often the server has called a connection that had told it that it is dead
+			w.log(fw.Event{"ev": "Calls", "e": e, "n": en.cur().dead})
+		}
+	}
+	w.mu.Unlock()
 	if br != nil {
 		w.logL(fw.Event{"ev": "Counters", "sent": br.GetBytesSent(), "recv": br.GetBytesReceived()})
 	}
